@@ -23,8 +23,10 @@ def decorate(st):
     from .clone import salt_of
     salt = salt_of(st)
     st = dict(st)
-    st["type"] = {h: (TYPES[(int(h[1:]) + salt) % len(TYPES)] if k == "sec" else t) for (h, k), t in
-                  zip(st["kind"].items(), [st["type"][h] for h in st["kind"]])}
+    # half of the trees keep the generator's single type (there, different Sections can be equal in content)
+    if salt % 2:
+        st["type"] = {h: (TYPES[(int(h[1:]) + salt) % len(TYPES)] if k == "sec" else t) for (h, k), t in
+                      zip(st["kind"].items(), [st["type"][h] for h in st["kind"]])}
     st["nvals"] = {h: ((int(h[1:]) + salt) % 3 if k == "prop" else 0) for h, k in st["kind"].items()}
     st["typeparts"] = {t: t.lower().split("/") for t in set(st["type"].values()) if isinstance(t, str)}
     return st
